@@ -446,6 +446,11 @@ inductive Op
   | ref (x y : Nat)
 deriving Repr
 
+/-- the name a place belongs to: `$x` or `$x->p` -/
+def Place.root : Place → Place
+  | .idx b _ => b.root
+  | p => p
+
 def Place.isRoot : Place → Bool
   | .var _ => true
   | .prop _ _ => true
